@@ -134,7 +134,10 @@ theorem c08_x_syncRename_order : syncRenameCalls = ["f.Sync", "os.Rename", "f.Cl
 theorem c08_x_sortedDocs_order :
     writeSortedDocsCalls = ["os.Create", "writeDocsInOrder", "syncRename"] ∧
       writeSortedDocsNames = ["os.Create f.BaseFileName + consts.SdocsTmpFileSuffix", "syncRename f.BaseFileName + consts.SdocsFileSuffix"] ∧
-      writeSortedDocsGuard = "!f.Config.SkipSortDocs" := by decide
+      writeSortedDocsGuard = "!f.Config.SkipSortDocs" ∧
+      -- the block offsets and positions it returns are copies: the pooled `docBlocksWriter` they come from is handed
+      -- back by the deferred `putDocBlocksWriter` and may be refilled by an overlapping seal (oracle seal.overlap)
+      writeSortedDocsReturn = ["sdocsFile", "slices.Clone(bw.BlockOffsets)", "maps.Clone(bw.Positions)", "nil"] := by decide
 
 /-- `writeSealedFraction`: sorted docs first, then the index sections in the order `writeIndex` models; a block is
 `Seek` + `Write`, the registry `Seek, Write, Seek, Write` (the last `Write` is the 16-byte header at offset 0), and in
